@@ -200,6 +200,7 @@ const (
 	KNodeStart  = "node.start" // Str = error if any
 	KNodeCrash  = "node.crash" // Str = crash point
 	KNodeStop   = "node.stop"
+	KNodeBounce = "node.bounce" // in-process Stop + Restart of the same object
 	KSample     = "sample"
 	KFault      = "fault" // Str = description
 	KPhase      = "phase" // Str
